@@ -45,8 +45,8 @@ func HC02AdapterTWCC() {
 			} else {
 				list[i] = uint16(vr.Param("pad", 0))
 			}
-			if i < count && list[i] != rtcp.TypeTCCPacketNotReceived {
-				nrecv++
+			if list[i] != rtcp.TypeTCCPacketNotReceived {
+				nrecv++ // the parser yields deltas for received padding symbols too
 			}
 		}
 		fb.PacketChunks = []rtcp.PacketStatusChunk{&rtcp.StatusVectorChunk{Type: rtcp.TypeTCCStatusVectorChunk, SymbolSize: rtcp.TypeTCCSymbolSizeTwoBit, SymbolList: list}}
